@@ -25,7 +25,12 @@ own point ``select_enter``; if by then one of the fds it was handed has been clo
 waker, report a waker-only result so the loop republishes the fd set).  One third of the programs are
 aimed at it: fd a enters a published set, is removed and closed — possibly before the selector thread
 has entered select — while another fd b is or becomes registered and ready and must still be
-dispatched.  Re-adding a closed number models descriptor reuse.  Handlers consume the readiness
+dispatched.  Re-adding a closed number models descriptor reuse.  ``burst`` performs 40..900 registration
+changes inside one actor step (one loop callback, the baton is not passed): the real waker socket's
+buffer fills up (label ``waker_buffer_full``).  ``_waker_w`` is wrapped so that a ``send`` that would block
+(blocking socket, buffer full) becomes a scheduler point that only a drain can make ready — the loop
+thread is the only one that drains, so the ordinary no-runnable-thread rule reports it as a deadlock
+instead of the harness hanging in the kernel.  Handlers consume the readiness
 they are dispatched for (like reading the data) and optionally unregister themselves (one-shot).
 After the program a *fair completion* runs (pending callbacks and the selector thread alternate until
 nothing can move), then the shutdown (``close()``, the ``atexit`` hook, or the async-generator
@@ -63,6 +68,9 @@ Sensitivity (quick tier, seed 1, one mutant at a time on a scratch copy; all fou
   * EBADF recovery branch ``continue``s to the top of the thread loop instead of reporting the
     waker-only result (no ``_handle_select``, select never restarted) ..... caught (C40.lost_event, thread
     in cond_wait; seeds 1..3, < 1 s; needs ``remove_close`` between publish and select_enter)
+  * ``_waker_w.setblocking(False)`` dropped in ``__init__`` (``_wake_selector``'s BlockingIOError handler
+    can no longer fire; ~280 wake-ups in one callback block the loop thread for ever) ... caught
+    (C40.deadlock: actor at ``waker_send_blocked``; needs a ``burst`` op)
   When ``sched`` has found a violation the ``smoke`` part is skipped (with these mutants it would hang
   until its cap and turn the run into exit 2 = inconclusive).
 """
@@ -85,7 +93,8 @@ PROPERTY = "C40"
 READY = True
 RULE = (
     "Hypothesis: actor program of <=15 ops over 3 virtual fds (add/remove reader/writer, make readable/"
-    "writable, clear, remove+close an fd (scripted select then raises EBADF), run one loop callback, "
+    "writable, clear, remove+close an fd (scripted select then raises EBADF), a burst of 40..900 "
+    "registration changes in one step (fills the real waker socket), run one loop callback, "
     "close; thread started before or during the program; 1/3 of the programs aimed at the EBADF path) x "
     "generated schedule of <=80 binary choices (then stay-on-thread or always-switch) x "
     "shutdown path (close / atexit hook / asyncgen aclose) x one-shot handlers; the real SelectorThread "
@@ -103,7 +112,7 @@ ASSUMPTIONS = [
 ]
 TECHNIQUE = "controlled-concurrency testing: baton scheduler with generated schedules over the real two-thread code, invariants checked at every step, plus a real-thread smoke test"
 LEVEL_TEXT = (
-    "700 generated (program, schedule) pairs per quick run (30 000 thorough), <=3 fds, <=15 actor ops; "
+    "500 generated (program, schedule) pairs per quick run (30 000 thorough), <=3 fds, <=15 actor ops; "
     "each run is deterministic and replayable.  Interleavings are sampled, not exhausted; pre-emption "
     "finer than the instrumented points is not modelled."
 )
@@ -155,6 +164,41 @@ class FakeLoop:
         else:
             cb(*args)
         return True
+
+
+class WakerSendProxy:
+    """Stands in for ``SelectorThread._waker_w`` (everything but ``send`` is forwarded).  The waker pair is
+    real.  Its read side is only ever drained by ``_consume_waker`` on the loop thread, so a ``send`` that
+    would *block* (blocking socket, buffer full) while the loop thread is the sender can never return.
+    Instead of letting the harness hang in the kernel, such a send becomes a scheduler point that is ready
+    only when the socket is writable: if nothing can make it writable the scheduler's ordinary
+    no-runnable-thread rule reports the deadlock.  A non-blocking socket just raises BlockingIOError,
+    which the code under test is expected to swallow."""
+
+    def __init__(self, sock, sched, env):
+        self.__dict__.update(_sock=sock, _sched=sched, _env=env)
+
+    def _writable(self):
+        try:
+            return bool(real_select.select([], [self._sock], [], 0)[1])
+        except (ValueError, OSError):
+            return True
+
+    def send(self, data, *args):
+        if self._sock.getblocking() and not self._writable():
+            self._env.labels.add("waker_send_would_block")
+            self._sched.point("waker_send_blocked", self._writable)
+        try:
+            return self._sock.send(data, *args)
+        except BlockingIOError:
+            self._env.labels.add("waker_buffer_full")
+            raise
+
+    def __getattr__(self, name):
+        return getattr(self._sock, name)
+
+    def __setattr__(self, name, value):
+        setattr(self._sock, name, value)
 
 
 class Env:
@@ -300,6 +344,7 @@ def run_sched_case(ctx, case):
         try:
             probe = Probe(loop)
             probe.__dict__["_env"] = env
+            probe._waker_w = WakerSendProxy(probe._waker_w, sched, env)
             env.probe = probe
             phase = "program"
             closed_in_program = False
@@ -315,7 +360,7 @@ def run_sched_case(ctx, case):
                     break
                 else:
                     fd = FDS[op[1]]
-                    if kind in ("add_reader", "add_writer") and fd in env.closed:
+                    if kind in ("add_reader", "add_writer", "burst") and fd in env.closed:
                         # the number is reused by a new descriptor
                         env.closed.discard(fd)
                         env.readable[fd] = env.writable[fd] = False
@@ -325,6 +370,12 @@ def run_sched_case(ctx, case):
                         probe.add_reader(fd, env.on_read, fd)
                     elif kind == "add_writer":
                         probe.add_writer(fd, env.on_write, fd)
+                    elif kind == "burst":
+                        # many registration changes inside ONE loop callback: the loop thread never gets
+                        # to drain the waker in between, so its socket buffer fills up (~280 bytes)
+                        for _ in range(op[2]):
+                            probe.add_reader(fd, env.on_read, fd)
+                        labels.add("burst")
                     elif kind == "remove_close":
                         # the documented order: unregister, then close (never close a registered fd)
                         probe.remove_reader(fd)
@@ -343,7 +394,7 @@ def run_sched_case(ctx, case):
                     elif kind == "clear":
                         env.readable[fd] = False
                         env.writable[fd] = False
-                    if kind.startswith(("add_", "remove_")):
+                    if kind.startswith(("add_", "remove_", "burst")):
                         env.last_change_switches = sched.switches
             if not closed_in_program:
                 # fair completion, then the no-lost-event clause
@@ -555,6 +606,7 @@ _op = st.one_of(
     st.tuples(st.just("remove_writer"), _fd),
     st.tuples(st.just("clear"), _fd),
     *_w(st.tuples(st.just("remove_close"), _fd), 2),
+    st.tuples(st.just("burst"), _fd, st.sampled_from([40, 320, 500, 900])),
     st.tuples(st.just("close")),
 )
 
@@ -602,7 +654,7 @@ PARTS = {"sched": run_sched_case, "smoke": run_smoke_case}
 
 def main(ctx):
     ctx.run_replays(PARTS)
-    ctx.explore(sched_case_s, run_sched_case, ctx.n(700, 30000), name="sched")
+    ctx.explore(sched_case_s, run_sched_case, ctx.n(500, 30000), name="sched")
     if ctx.violations:
         return  # already decided; an inconclusive (exit 2) smoke run must not mask the violation
-    ctx.explore(smoke_case_s, run_smoke_case, ctx.n(30, 1600), name="smoke")
+    ctx.explore(smoke_case_s, run_smoke_case, ctx.n(25, 1600), name="smoke")
